@@ -909,7 +909,9 @@ func (m *MutableOverlayWorld) AddTag(id b6.FeatureID, tag b6.Tag) error {
 			return fmt.Errorf("No feature with ID %s", id)
 		}
 		if indexedAfter {
-			f = NewFeatureFromWorld(base)
+			// Copy the feature with the plain tag edits recorded so far.
+			f = NewFeatureFromWorld(m.tags.WrapFeature(base))
+			delete(m.tags, id)
 			f.ModifyOrAddTag(tag)
 			m.features.AddFeature(f)
 			m.references.AddFeature(f)
@@ -934,9 +936,12 @@ func (m *MutableOverlayWorld) RemoveTag(id b6.FeatureID, key string) error {
 		if base == nil {
 			return fmt.Errorf("No feature with ID %s", id)
 		}
+		// Look at the feature with the plain tag edits recorded so far.
+		base = m.tags.WrapFeature(base)
 		if tag := base.Get(key); tag.IsValid() {
 			if _, indexed := b6.TokenForTag(tag); indexed {
 				f = NewFeatureFromWorld(base)
+				delete(m.tags, id)
 				f.RemoveTag(key)
 				m.features.AddFeature(f)
 				m.references.AddFeature(f)
